@@ -109,6 +109,24 @@ fn check_pretty_lines(p: &str) -> Result<(), String> {
                 structural.push((i, c));
             }
         }
+        // an empty container may be written as `[]` / `{}` (no member to put on a line)
+        let structural: Vec<(usize, char)> = {
+            let mut v = vec![];
+            let mut k = 0;
+            while k < structural.len() {
+                let (i, c) = structural[k];
+                if k + 1 < structural.len() {
+                    let (j, d) = structural[k + 1];
+                    if j == i + 1 && ((c == '[' && d == ']') || (c == '{' && d == '}')) {
+                        k += 2;
+                        continue;
+                    }
+                }
+                v.push((i, c));
+                k += 1;
+            }
+            v
+        };
         let n = body.chars().count();
         let closes = body.starts_with(']') || body.starts_with('}');
         let want = 2 * if closes { depth - 1 } else { depth };
@@ -220,7 +238,7 @@ pub fn check(m: &M, obs: &mut Obs) -> Result<(), String> {
 }
 
 fn run_trees(ctx: &mut Ctx) {
-    let cases = ctx.share(ctx.tier.pick(60_000, 2_000_000));
+    let cases = ctx.share(ctx.tier.pick(400_000, 4_000_000));
     let p = ctx.tier.pick(TreeParams::quick(), TreeParams::thorough()).finite();
     run_strategy(ctx, "C03", "trees", cases, arb_doc(p), check);
 }
